@@ -606,7 +606,9 @@ class _LayoutAdapter:
         nchw_shape = tuple(aval_shape[p] for p in _NHWC_TO_NCHW_PERM)
         nchw_input_val = ir.Value(
             name=f"in_{index}_nchw",
-            type=ir.TensorType(_to_ir_dtype_from_np(np.dtype(var.aval.dtype))),
+            type=ir.TensorType(
+                _dtype_to_ir(np.dtype(var.aval.dtype), self.enable_double_precision)
+            ),
             shape=_to_ir_shape(nchw_shape),
         )
         self.ctx.add_graph_input_value(nchw_input_val)
